@@ -153,7 +153,7 @@ Print Assumptions C13_never_started_is_synchronous.
    bytes go *)
 Theorem C13_h2_request_dump_is_wire : forall i o w ds enc frame frame_fin endstream fs chunks fin_last,
   NoDup (map fst ds) -> In (i, o) ds ->
-  let '(sr, lg) := h2_send ds enc frame frame_fin endstream app_writer [] (mkH23Req fs (Some chunks) fin_last) in
+  let '(sr, lg) := h2_send ds enc frame frame_fin endstream app_writer [] (mkH23Req fs (Some chunks) fin_last false) in
   sr_failed sr = false /\
   content i w lg =
   content i w (run_hooks ds (field_hooks HReqHeader fs ++ map HReqBody (filter nonempty chunks)
@@ -161,8 +161,22 @@ Theorem C13_h2_request_dump_is_wire : forall i o w ds enc frame frame_fin endstr
 Proof. exact h2_send_identity_log. Qed.
 Print Assumptions C13_h2_request_dump_is_wire.
 
+(* "body bytes as sent": an HTTP/2 upload abandoned before END_STREAM (the peer answered or reset
+   the stream while the client waited for flow-control window, the request was cancelled): the
+   wire holds the header block and the DATA frames written, and every (dumper, writer) holds the
+   header lines and exactly the payloads of those frames - bytes that were read from the body but
+   never framed are not dumped, no separator follows *)
+Theorem C13_h2_aborted_upload_dump_is_what_was_sent : forall i o w ds enc frame frame_fin endstream fs chunks,
+  NoDup (map fst ds) -> In (i, o) ds ->
+  let '(sr, lg) := h2_send ds enc frame frame_fin endstream app_writer [] (mkH23Req fs (Some chunks) false true) in
+  sr_state sr = enc fs ++ concat (map frame (filter nonempty chunks)) /\
+  content i w lg =
+  content i w (run_hooks ds (field_hooks HReqHeader fs ++ map HReqBody (filter nonempty chunks))).
+Proof. exact h2_send_aborted_log. Qed.
+Print Assumptions C13_h2_aborted_upload_dump_is_what_was_sent.
+
 Theorem C13_h3_request_dump_is_wire : forall ds enc fs chunks fl,
-  h3_send ds enc app_writer [] (mkH23Req fs (Some chunks) fl) =
+  h3_send ds enc app_writer [] (mkH23Req fs (Some chunks) fl false) =
   (mkSend (enc fs ++ concat chunks) false false,
    run_hooks ds (field_hooks HReqHeader fs ++ map HReqBody chunks
                  ++ (if Nat.eqb (total_len chunks) 0 then [] else [HReqBodyEnd sep23]))).
